@@ -209,8 +209,15 @@ def epsalg(ctx, ex):
               '|delta| <= c with c <= 1e-30', 'vanishing difference guard', key='epsalg guard')
 
 
-def guards_off(text, prefer_new):
-    """Outcome of an undetermined branch condition when no convergence / irregular-behaviour guard fires."""
+def guards_off(text, prefer_new, value=None):
+    """Outcome of an undetermined branch condition in the regime where no convergence / irregular-behaviour guard fires:
+    every difference is large against its tolerance (`|d| > tol`, tol a multiple of EPS), the irregularity measure is above
+    1e-4, and of two error estimates the new one is preferred or not as `prefer_new` says.  The condition is judged by
+    what it compares (the structure of the undetermined value), not by its source text."""
+    if isinstance(value, Unk):
+        r = _eval_guard(value.expr, prefer_new)
+        if r is not None:
+            return r
     neg = False
     while text.startswith('not '):
         text, neg = text[4:], not neg
@@ -223,6 +230,51 @@ def guards_off(text, prefer_new):
     return val != neg
 
 
+def _has_eps(x):
+    return isinstance(x, (Poly, Rat)) and any('EPS' in a_ for a_ in x.atoms())
+
+
+def _eval_guard(e, prefer_new):
+    if isinstance(e, Unk):
+        return _eval_guard(e.expr, prefer_new)
+    if isinstance(e, bool):
+        return e
+    if not (isinstance(e, tuple) and e):
+        return None
+    if e[0] == 'not':
+        r = _eval_guard(e[1], prefer_new)
+        return None if r is None else not r
+    if e[0] in ('and', 'or'):
+        x, y = _eval_guard(e[1], prefer_new), _eval_guard(e[2], prefer_new)
+        if x is None or y is None:
+            return None
+        return (x and y) if e[0] == 'and' else (x or y)
+    if e[0] == 'cmp':
+        _, op, a_, b_ = e
+        if op not in ('<', '<=', '>', '>='):
+            return None
+        greater = op in ('>', '>=')
+        if a_ == 'HUGE-scale' and b_ == 'HUGE-scale':
+            return greater                   # |e_1 - HUGE| against max(.., HUGE) * EPS: a difference against its tolerance
+        if _has_eps(b_) and not _has_eps(a_):
+            return greater                   # |difference| against its tolerance: not converged
+        if _has_eps(a_) and not _has_eps(b_):
+            return not greater
+        cb, ca = ndarr.concrete_real(b_), ndarr.concrete_real(a_)
+        if cb is not None and 0 < cb <= Fr(1, 1000):
+            return greater                   # irregularity measure against 1e-4: regular
+        if ca is not None and 0 < ca <= Fr(1, 1000):
+            return not greater
+        huge = lambda x: isinstance(x, Poly) and 'HUGE' in x.atoms()       # noqa: E731
+        if huge(b_) and not huge(a_):
+            return not greater               # anything is below the "no estimate yet" sentinel
+        if huge(a_) and not huge(b_):
+            return greater
+        # two error estimates: `new > old` is false when the new one is preferred
+        return (not prefer_new) if greater else prefer_new
+    return None
+
+
 def dea_first_iteration(repo):
     """Abstract run of Dea with three symbolic terms, all guards answered False; returns value and the tests seen."""
     tests = []
@@ -232,7 +284,7 @@ def dea_first_iteration(repo):
             for c in value.comparisons():
                 tests.append(('%r %s %r' % (c[2], c[1], c[3]))[:160])
                 cmps.append(c)
-        return guards_off(ast.unparse(node), True)
+        return guards_off(ast.unparse(node), True, value)
     cmps = []
     I, models = make(repo, oracle)
     D = I.get_global('extrapolation', 'Dea')
@@ -300,7 +352,7 @@ def dea_table(ctx, ex):
     for limexp, nterms in ((3, 7), (5, 6)) if ctx.tier == 'quick' else ((3, 9), (5, 7)):
         for prefer_new in ((True, False) if limexp == 3 else (True,)):
             def oracle(interp, node, fr, value, prefer_new=prefer_new):
-                return guards_off(ast.unparse(node), prefer_new)
+                return guards_off(ast.unparse(node), prefer_new, value)
             I, models = make(ctx.repo, oracle)
             D = I.get_global('extrapolation', 'Dea')
             obj = D(limexp=limexp)
@@ -365,15 +417,26 @@ def dea_cap(ctx, ex):
             obj = D(limexp=limexp)
             eff = obj.attrs['_limexp']
             trace = []
-            for k in range(nterms):
-                obj(DV({('s', k)}, 'f'))
-                trace.append(obj.attrs['_n'])
+            calls = []
+            I.call_trace = calls
+            try:
+                for k in range(nterms):
+                    obj(DV({('s', k)}, 'f'))
+                    trace.append(obj.attrs['_n'])
+            finally:
+                I.call_trace = None
+                n_dea = sum(1 for c in calls if c[0] == 'enter' and c[1].endswith('Dea._dea'))
+                n_shift = sum(1 for c in calls if c[0] == 'enter' and c[1].endswith('Dea._shift_table'))
+                skipped.append(n_dea - n_shift)        # extrapolation steps that returned without shifting / capping the table
             return eff, trace, obj.attrs['epstab'].shape[0]
+        skipped = []
         exr.run(body)
         raised = []
         over = []
-        for decisions, res, exc in exr.paths:
+        unshifted = {}
+        for (decisions, res, exc), sk in zip(exr.paths, skipped):
             path = ', '.join('%s=%s' % (d[1][:28], d[0]) for d in decisions)
+            unshifted[path] = sk
             if exc is not None:
                 raised.append({'path': path, 'raises': exc.exc_name, 'message': exc.msg[:60]})
                 continue
@@ -381,11 +444,10 @@ def dea_cap(ctx, ex):
             # at the next entry epstab[n + 2] is written: it must stay below the res3la cells (size - 3)
             if any(n + 2 > size - 4 for n in trace):
                 over.append({'path': path, 'indices': trace[:14], 'table_cells': size - 3})
+        # which violation it is: on every offending path some extrapolation step returned early (all table entries agreed to
+        # machine accuracy) without passing the shift / cap of the table - judged by the calls made, not by source text
         key = 'dea-cap'
-        if raised and all('all_converged=True' in r['path'] for r in raised) and not over:
-            key = 'dea-cap: index not capped on the all_converged path'
-        elif over and all('all_converged=True' in o['path'] for o in over) and \
-                all('all_converged=True' in r['path'] for r in raised):
+        if (raised or over) and all(unshifted.get(r['path'], 0) > 0 for r in raised + over):
             key = 'dea-cap: index not capped on the all_converged path'
         rep.check(not raised and not over, 'R-DEA-CAP', 'extrapolation.Dea._dea', where,
                   {'limexp': limexp, 'terms_fed': nterms, 'paths': len(exr.paths), 'raised': raised[:2],
